@@ -406,6 +406,11 @@ class Evaluator(object):
                 for field in ('body', 'orelse', 'finalbody'):
                     self._run_toplevel(getattr(s, field, []) or [], scope)
                 continue
+            if isinstance(s, ast.Expr) and isinstance(s.value, ast.Call) and isinstance(s.value.func, ast.Attribute) \
+                    and isinstance(s.value.func.value, ast.Name) and s.value.func.value.id in scope.env \
+                    and scope.env[s.value.func.value.id].kind == 'dict':
+                self._table_method(s.value, scope)
+                continue
             if isinstance(s, ast.AnnAssign) and isinstance(s.target, ast.Name) and s.value is not None:
                 targets, value = [s.target], s.value
             elif isinstance(s, ast.Assign):
@@ -433,6 +438,47 @@ class Evaluator(object):
                     elif tab is not None:
                         scope.env[t.value.id] = Term('opaque', node=tab.node, module=scope.module,
                                                      name='%s (modified by a subscript store)' % t.value.id)
+
+    def _table_method(self, call, scope):
+        """`T.update(...)` / `T.setdefault(k, v)` as a module-level statement on a known table; anything else that may
+        write the table makes it opaque."""
+        name = call.func.value.id
+        tab = scope.env[name]
+        meth = call.func.attr
+        pairs = None
+        try:
+            if meth == 'update':
+                pairs = []
+                for a in call.args:
+                    t = self.eval(a, scope)
+                    if t.kind == 'dict':
+                        pairs.extend(t.items)
+                    elif t.kind in ('list', 'tuple') and all(x.kind in ('list', 'tuple') and len(x.args) == 2 for x in t.args):
+                        pairs.extend((x.args[0], x.args[1]) for x in t.args)
+                    else:
+                        pairs = None
+                        break
+                if pairs is not None:
+                    for kw in call.keywords:
+                        if kw.arg is None:
+                            pairs = None
+                            break
+                        pairs.append((Term('const', value=kw.arg, node=kw.value, module=scope.module), self.eval(kw.value, scope)))
+            elif meth in ('copy', 'get', 'keys', 'values', 'items'):
+                return
+        except Unsupported:
+            pairs = None
+        if pairs is None or not all(k.kind == 'const' for k, _ in pairs):
+            if meth in ('update', 'setdefault', 'pop', 'popitem', 'clear', '__setitem__', '__delitem__'):
+                scope.env[name] = Term('opaque', node=tab.node, module=scope.module, name='%s (modified by .%s())' % (name, meth))
+            return
+        items = list(tab.items)
+        for k, v in pairs:
+            items = [(k2, v2) for k2, v2 in items if not (k2.kind == 'const' and k2.value == k.value)]
+            if k.node is None:
+                k.node = call
+            items.append((k, v))
+        scope.env[name] = Term('dict', items=items, node=tab.node, module=tab.module)
 
     def module_value(self, module, name):
         env = self.module_env(module)
@@ -541,23 +587,45 @@ class Evaluator(object):
         if len(node.generators) != 1:
             raise Unsupported('nested dict comprehension')
         g = node.generators[0]
-        if g.ifs or not isinstance(g.target, ast.Name):
+        if g.ifs:
             raise Unsupported('filtered dict comprehension')
-        src = self.eval(g.iter, scope)
-        if src.kind == 'dict':
-            keys = [k for k, _ in src.items]
-        elif src.kind in ('list', 'tuple'):
-            keys = src.args
+        # iteration space: keys of a table, (key, value) pairs of table.items(), or a display of elements / pairs
+        it = g.iter
+        elems = None
+        if isinstance(it, ast.Call) and isinstance(it.func, ast.Attribute) and it.func.attr in ('items', 'keys', 'values') \
+                and not it.args and not it.keywords:
+            src = self.eval(it.func.value, scope)
+            if src.kind != 'dict':
+                raise Unsupported('comprehension over a non-table')
+            if it.func.attr == 'items':
+                elems = [Term('tuple', args=[k, v], node=k.node, module=k.module) for k, v in src.items]
+            elif it.func.attr == 'keys':
+                elems = [k for k, _ in src.items]
+            else:
+                elems = [v for _, v in src.items]
         else:
-            raise Unsupported('comprehension over a non-table')
+            src = self.eval(it, scope)
+            if src.kind == 'dict':
+                elems = [k for k, _ in src.items]
+            elif src.kind in ('list', 'tuple'):
+                elems = list(src.args)
+            else:
+                raise Unsupported('comprehension over a non-table')
         items = []
-        for k in keys:
+        for e in elems:
             inner = scope.child()
-            inner.env[g.target.id] = k
+            if isinstance(g.target, ast.Name):
+                inner.env[g.target.id] = e
+            elif isinstance(g.target, (ast.Tuple, ast.List)) and all(isinstance(t, ast.Name) for t in g.target.elts) \
+                    and e.kind in ('tuple', 'list') and len(e.args) == len(g.target.elts):
+                for t, v in zip(g.target.elts, e.args):
+                    inner.env[t.id] = v
+            else:
+                raise Unsupported('comprehension target not supported')
             kt = self.eval(node.key, inner)
             vt = self.eval(node.value, inner)
             if kt.kind == 'const':
-                kt = Term('const', value=kt.value, node=k.node, module=k.module)
+                kt = Term('const', value=kt.value, node=kt.node if kt.node is not None else e.node, module=kt.module or e.module)
             items.append((kt, vt))
         return Term('dict', items=items, node=node, module=scope.module)
 
